@@ -64,22 +64,30 @@ Val(v) == [ok |-> TRUE, v |-> v]
 ---------------------------------------------------------------------------
 (* typed write:  a = [op |-> "w", t, tok, n, lim]   (lim >= 0: WriteLimitString) *)
 WriteOK(a) == ~(a.lim >= 0 /\ Len(a.tok) > a.lim)
-ReplyW(a)  == [ok |-> WriteOK(a), len |-> IF WriteOK(a) THEN total + a.n ELSE total, pan |-> 0]
+ULen == IF phase = "w" THEN total ELSE avail - off           \* length of the unread region
+UOff == IF phase = "w" THEN 0 ELSE off
+ReplyW(a)  == [ok |-> WriteOK(a), len |-> IF WriteOK(a) THEN ULen + a.n ELSE ULen, pan |-> 0]
+(* The stream is a FIFO: a buffer that is being read back (all of it was    *)
+(* opened, the reader stands at an item boundary) may be written to again;  *)
+(* the item queues behind the unread ones.  The stream readers were given   *)
+(* the old bytes and are dropped, and nothing is opened again (as after a   *)
+(* rewrite in phase "r").                                                   *)
 DoW(a) ==
-  /\ phase = "w" /\ ~arb /\ a.n >= 0
+  /\ ~arb /\ a.n >= 0
+  /\ phase = "w" \/ (phase = "r" /\ sync /\ avail = total)
   /\ IF WriteOK(a)
      THEN /\ items' = Append(items, [t |-> a.t, tok |-> a.tok, n |-> a.n, dirty |-> FALSE])
           /\ total' = total + a.n
-     ELSE UNCHANGED <<items, total>>
-  /\ UNCHANGED <<arb, phase, avail, hd, off, sync, ks, midrw, got>>
+          /\ avail' = IF phase = "r" THEN avail + a.n ELSE avail
+     ELSE UNCHANGED <<items, total, avail>>
+  /\ IF phase = "r" THEN midrw' = TRUE /\ ks' = <<>> ELSE UNCHANGED <<midrw, ks>>
+  /\ UNCHANGED <<arb, phase, hd, off, sync, got>>
 
 ---------------------------------------------------------------------------
 (* in-place rewrite of the unread region:                                  *)
 (*   a = [op |-> "rw", kind |-> "p" | "u32", pos, plen, tok]               *)
 (* kind "p": ReWrite(pos, p), tok = p;  kind "u32": ReWriteU32(pos, v),    *)
 (* tok = token of v, plen = width of an encoded u32.                       *)
-ULen == IF phase = "w" THEN total ELSE avail - off           \* length of the unread region
-UOff == IF phase = "w" THEN 0 ELSE off
 
 (* bytes of the unread region addressed by the call, 1-based *)
 Window(pos, plen, ulen) == {i \in 1..ulen : pos < i /\ i <= pos + plen}
@@ -336,7 +344,7 @@ Agreement ==
 RefusedWrite ==
   [][LET a == last'.a
          r == last'.r
-     IN (a.op = "w" /\ ~r.ok) => UNCHANGED vars]_allvars
+     IN (a.op = "w" /\ ~r.ok) => UNCHANGED <<items, total, arb, phase, avail, hd, off, sync, got>>]_allvars
 
 View == vars
 =============================================================================
